@@ -2,15 +2,23 @@ package rules
 
 // C10 — packed object/element/feature ids are lossless, ordered and parseable.
 //
+// Every rule decides by *evaluating* the exported API with the abstract interpreter of c10_interp*.go (bit-vector
+// integers, symbolic texts, slices, errors); no rule reads the shape of a statement. Extracted helpers are
+// inlined, renamed locals are objects, if / switch / tagless switch / inverted branches / if-with-init /
+// early returns / moved functions are all just control flow of the interpreted body.
+//
 // Anchors. Exported API (class 1): the id types NodeID, WayID, RelationID, ChangesetID, NoteID, UserID,
-// the packed types ObjectID, ElementID, FeatureID and their methods, the structs Node, Way, Relation,
+// the packed types ObjectID, ElementID, FeatureID and their exported methods, the structs Node, Way, Relation,
 // Changeset, Note, User, Bounds, WayNode, Member and their fields ID/Ref/Version/Type, the Type
-// constants, ParseObjectID/ParseElementID/ParseFeatureID. Role anchors (class 2): every
-// `switch X & typeMask`, every switch over a Type value in an id-related function, every Less method
-// comparing packed ids, the callees of the parsers returning (id, error).
-// Unexported identifiers (class 3, a pure rename of one of them makes K1 report UNRESOLVED-ANCHOR):
-//   versionBits, versionMask, refMask, featureMask, typeMask,
-//   boundsMask, nodeMask, wayMask, relationMask, changesetMask, noteMask, userMask.
+// constants, ParseObjectID/ParseElementID/ParseFeatureID, Elements.Sort/ElementIDs.Sort/FeatureIDs.Sort.
+// Role anchors (class 2): methods of Type returning (packed id, error) (the kind lookups), exported
+// parameterless methods on lists of packed ids returning three ints (Counts), exported methods on lists of
+// ids / id-bearing interfaces that reach a call of package sort (the provided sorts), exported functions
+// taking an Object and calling Type() of a packed id (kind dispatchers), the strconv parse calls reached with
+// the decimal text of the reference / version.
+// Unexported identifiers (class 3) are *hints only*: versionBits, versionMask, refMask, featureMask, typeMask and
+// the seven kind masks are used when they resolve by name; otherwise their value is derived from the role they
+// play in the exported API (c10Model.role, kindBitsByRole) and K1 checks that value.
 
 import (
 	"fmt"
@@ -30,33 +38,38 @@ func init() {
 	register(&core.Property{
 		ID:    "C10",
 		Title: "Packed object/element/feature ids are lossless, ordered and parseable",
-		Explanation: "K1-K4 decide the packing clauses completely over a 64-lane bit-vector abstract domain (each result bit is constant 0/1, an input bit ref[i] (i<40) / ver[j] (j<16), or unknown) evaluated over the actual expressions of /repo with the constants the type checker computed; nothing is executed. " +
-			"(K1) the layout constants are consistent: versionMask = 1<<versionBits-1, refMask = (1<<40-1)<<versionBits, type/ref/version masks pairwise disjoint with bit 63 clear, featureMask = typeMask|refMask, seven distinct non-zero kind masks inside typeMask, nodeMask < wayMask < relationMask. " +
-			"(K2) every constructor (XID.ObjectID/FeatureID/ElementID, FeatureID.ElementID/ObjectID, the struct wrappers (*Node).ElementID ... Member.ElementID) yields exactly kindMask | ref<<16 | ver with no unknown lane for every ref in [0,2^40) and version in [0,2^16): each input bit occupies its own lane, so distinct inputs give distinct ids. " +
-			"(K3) Ref/Version/Type and the conversions composed with K2 are the identity on every lane; every `switch id & typeMask` and every switch over Type in an id function maps each kind to the same Type constant / constructor (table agreement, both directions). " +
-			"(K4) kind lanes lie above ref lanes above version lanes, bit 63 is 0, node < way < relation, so integer order is (kind, ref, version) order; the sort adapters comparing packed ids use strict ascending `<` on the ids, with standard Len/Swap. " +
-			"(K5, structural) in ParseObjectID/ParseElementID/ParseFeatureID every error-returning call is tested and rejected with a provably non-nil error, no path returns a constant id with a nil error, the `/` split accepts exactly 2 parts and the `:` split exactly 1 or 2, every parts[k] is covered by the accepted lengths, the abstract value of the success return under (kind text, ref, version) taken from their textual positions equals the K2 id of that kind, unknown kind text yields an error, and String()'s format (verbs, separators, the `-` for version 0) mirrors what the parser splits on. " +
-			"NOT decided: acceptance of odd but shape-conforming text (`+1`, negative or out-of-range refs/versions, which wrap into the fields), the decimal round trip of fmt %d / strconv.ParseInt (trusted), inputs outside ref<2^40, version<2^16, and whether X.NodeID()/WayID() panic for ids of another kind (observed: `id&nodeMask != nodeMask` also lets relation ids through; outside the property statement).",
+		Explanation: "K1-K4 decide the packing clauses completely over a 64-lane bit-vector abstract domain (each result bit is constant 0/1, an input bit ref[i] (i<40) / ver[j] (j<16), or unknown) by abstract interpretation of the actual function bodies of /repo with the constants the type checker computed; nothing is executed. " +
+			"(K1) the layout is consistent: versionMask = 1<<versionBits-1, refMask = (1<<40-1)<<versionBits, type/ref/version masks pairwise disjoint with bit 63 clear, featureMask = typeMask|refMask, seven distinct non-zero kind masks inside typeMask, nodeMask < wayMask < relationMask; a constant that no longer exists under its usual name is replaced by the value derived from its role (the lanes Version()/Ref()/FeatureID() keep, the shift and kind bits the constructors write). " +
+			"(K2) every exported constructor (XID.ObjectID/FeatureID/ElementID, FeatureID.ElementID/ObjectID, the struct wrappers (*Node).ElementID ... Member.ElementID) yields exactly kindMask | ref<<16 | ver with no unknown lane for every ref in [0,2^40) and version in [0,2^16): each input bit occupies its own lane, so distinct inputs give distinct ids. " +
+			"(K3) Ref/Version/Type and the conversions composed with K2 are the identity on every lane; the kind lookups (methods of Type returning (id, error)) map the text of each kind the packed type can hold to the K2 id of that kind with a nil error and every other text (the other kinds, any other string, every string constant they compare with) to a non-nil error; the Counts methods count an id of each kind under that kind; functions that branch on the decoded kind of an Object do not panic for any kind. " +
+			"(K4) kind lanes lie above ref lanes above version lanes, bit 63 is 0, node < way < relation, so integer order is (kind, ref, version) order; the less function of every provided sort, evaluated for two abstract elements under the three possible orders of their keys and both argument orders, is exactly key(i) < key(j) on the packed id (the ElementID where the element has one), Swap exchanges, Len counts, and every implementation of the key accessor is a K2 constructor. " +
+			"(K5) String() and the parsers are evaluated on abstract ids and abstract texts: String prints kind/ref[:version|:marker] with the marker exactly for version 0; Parse(String(id)) = (id, nil) for every form; kind/ref without version gives version 0; texts with 1..N `/`- or `:`-separated parts are accepted exactly for 2 resp. 1 or 2 parts (N exceeds every constant a part count is compared with); a reference or version that is not a number, an empty kind, any text that is not a kind of the parser's id type (including changeset/note/user/bounds for element and feature ids) and every string constant the parser compares a text with give a provably non-nil error and no panic. " +
+			"(K6) every strconv parse reached with the decimal text of the reference / version uses base 10 and a bit size covering 40 / 16 bits (plus sign). " +
+			"NOT decided: acceptance of odd but shape-conforming text (`+1`, leading zeros, negative or out-of-range refs/versions, which wrap into the fields; a version after a kind that carries none), malformed texts outside the enumerated classes, the decimal round trip of fmt %d / strconv (trusted transfer functions), inputs outside ref<2^40, version<2^16, and whether X.NodeID()/WayID() panic for ids of another kind (observed: `id&nodeMask != nodeMask` also lets relation ids through; outside the property statement). Code outside the interpreted forms (closures other than a sort.Slice less function, goroutines, maps, labelled jumps, string indexing/slicing, stores through pointers) is reported as undecided, never silently accepted.",
 		Assumptions: []string{
 			"go/types constant values and types.Sizes of the loaded build configuration (int is 64 bits by default, 32 bits under GOARCH=386; versions < 2^16 fit either way and every conversion through int is evaluated with the configured width)",
 			"input domain of the property: ref in [0,2^40), version in [0,2^16) (higher input bits are constant 0)",
-			"fmt %d/%s and strconv.ParseInt(…,10,64) are mutually inverse on decimal integers; strings.Split semantics; sort.Sort contract",
-			"Go integer semantics of | & &^ ^ << >> + and integer conversions as implemented by the transfer functions in rules/c10_bitvec.go",
+			"transfer functions of the interpreter: Go integer semantics of | & &^ ^ << >> + - and integer conversions (rules/c10_bitvec.go); strings.Split/SplitN/Cut/Contains/Count, fmt.Sprintf with %s %d %v, string +, strconv.Itoa/FormatInt, strconv.ParseInt/ParseUint/Atoi (decimal text of a number that fits the requested width parses back to that number with a nil error; text with a non-digit gives a non-nil error), fmt.Errorf/errors.New return non-nil errors; sort.Sort/Stable/Slice contract",
+			"a generic text stands for every string the interpreted code cannot tell apart from it: texts only flow into splitting, ==/!=/switch against constants, conversions, formatting and strconv; every constant such a comparison uses is tried separately",
 		},
-		LevelText:  "K1-K4 are exhaustive over the abstract domain: the bit-level abstract interpretation of the real constructor/decoder expressions covers every kind, every ref in [0,2^40) and every version in [0,2^16) at once (all 2^56 inputs per kind, every bit-field boundary and every pair for the order claim) for each build configuration. K5 (parsing) is a set of structural necessary conditions plus the abstract evaluation of the parsers' success value; it does not decide acceptance of odd shape-conforming text.",
-		LevelNote:  "The evidence file written by the shared driver says exhaustive:false for every property; for C10 the rules K1-K4 are exhaustive over the stated input domain in the sense above, K5 is structural. Trusts go/types constants and sizes, the transfer functions of the bit-vector domain, and the fmt/strconv decimal round trip.",
-		Technique:  "bit-vector abstract interpretation (64 lanes: const/input-bit/unknown) of the id constructor, decoder and parser expressions with in-package inlining; type-resolved switch-table agreement; comparator shape analysis; def-use provenance and small-model evaluation of the parsers' arity guards",
+		LevelText:  "K1-K4 are exhaustive over the abstract domain: the bit-level abstract interpretation of the real constructor/decoder bodies covers every kind, every ref in [0,2^40) and every version in [0,2^16) at once (all 2^56 inputs per kind, every bit-field boundary and every pair for the order claim) for each build configuration. K5/K6 evaluate String and the parsers over the same domain for the round trip (every id) and over enumerated classes of malformed text (each class with a representative the code cannot distinguish from its other members); they do not decide acceptance of odd shape-conforming text.",
+		LevelNote:  "The evidence file written by the shared driver says exhaustive:false for every property; for C10 the rules K1-K4 and the round-trip part of K5 are exhaustive over the stated input domain in the sense above, the rejection part of K5 is a finite enumeration of text classes. Trusts go/types constants and sizes, the transfer functions of the bit-vector and text domains, and the fmt/strconv decimal round trip.",
+		Technique:  "abstract interpretation of whole function bodies (64-lane bit vectors: const/input-bit/unknown; symbolic texts of literal pieces and decimal renderings; slices, errors, dynamic types) with in-package inlining; finite-domain evaluation of kind tables, comparators (three key orders) and parsers (text classes); role-derived layout constants",
 		DesignRef:  "DESIGN.md §5 C10, §2.3 engine E",
 		Exhaustive: true,
 		Rules: []*core.Rule{
-			{ID: "K1", Floor: 16, Doc: "layout constants: masks consistent, disjoint, sign bit clear, seven distinct kind masks, node<way<relation", Run: c10K1},
-			{ID: "K2", Floor: 40, Doc: "every id constructor yields exactly kindMask | ref<<16 | ver with no unknown lane (injective)", Run: c10K2},
-			{ID: "K3", Floor: 90, Doc: "decoders and conversions are the identity on every lane; mask/Type switch tables agree", Run: c10K3},
-			{ID: "K4", Floor: 19, Doc: "lane layout makes integer order (kind, ref, version) order; id sorts use strict ascending <", Run: c10K4},
-			{ID: "K5", Floor: 59, Doc: "parsers test every error, accept exactly the kind/ref[:version] arities, rebuild the K2 id; String format mirrors the parser", Run: c10K5},
-			{ID: "K6", Floor: 5, Doc: "numeric text is parsed base 10 with a width covering the whole reference / version range", Run: c10K6},
+			// Floors count obligations keyed on exported API and kinds only (a refactoring cannot remove them):
+			// K3 = 46 decode@/convert@ + 8 lookup@Type.FeatureID + 10 counts@; the obligations about the unexported
+			// lookup (8 lookup@Type.objectID) and about the optional dispatcher role (7 dispatch@(*OSM).Append) are extra.
+			{ID: "K1", Floor: 16, Doc: "layout constants (by name, else by role): masks consistent, disjoint, sign bit clear, seven distinct kind masks, node<way<relation", Run: c10K1},
+			{ID: "K2", Floor: 40, Doc: "every exported id constructor yields exactly kindMask | ref<<16 | ver with no unknown lane (injective)", Run: c10K2},
+			{ID: "K3", Floor: 64, Doc: "decoders and conversions are the identity on every lane; kind lookups, Counts and kind dispatchers agree with the kinds (evaluated per kind)", Run: c10K3},
+			{ID: "K4", Floor: 19, Doc: "lane layout makes integer order (kind, ref, version) order; the provided sorts use strict ascending < on the packed ids (evaluated less/Swap/Len)", Run: c10K4},
+			{ID: "K5", Floor: 61, Doc: "Parse(String(id)) = id for every form; exactly the kind/ref[:version] arities are accepted; non-numbers, unknown and foreign kinds give a non-nil error, no panic", Run: c10K5},
+			{ID: "K6", Floor: 5, Doc: "the decimal reference / version text is parsed base 10 with a width covering the whole range (strconv calls found by the text that reaches them)", Run: c10K6},
 		},
-		Mutants: c10Mutants,
+		Mutants: append(append([]core.Mutant{}, c10Mutants...), c10MutantsRound2...),
+		Benign:  c10Benign,
 	})
 }
 
@@ -79,29 +92,29 @@ var c10Mutants = []core.Mutant{
 	// K3
 	{Name: "objectid-ref-shift-17", File: "object.go", Find: "int64((id & refMask) >> versionBits)", Replace: "int64((id & refMask) >> (versionBits + 1))", ExpectRule: "K3", ExpectConstruct: "ObjectID.Ref"},
 	{Name: "elementid-version-refmask", File: "element.go", Find: "return int(id & (versionMask))", Replace: "return int(id & (refMask))", ExpectRule: "K3", ExpectConstruct: "ElementID.Version"},
-	{Name: "objectid-type-note-as-changeset", File: "object.go", Find: "case noteMask:\n\t\treturn TypeNote", Replace: "case noteMask:\n\t\treturn TypeChangeset", ExpectRule: "K3", ExpectConstruct: "switch@ObjectID.Type case note"},
-	{Name: "featureid-string-way-as-relation", File: "feature.go", Find: "case wayMask:\n\t\tt = TypeWay", Replace: "case wayMask:\n\t\tt = TypeRelation", ExpectRule: "K3", ExpectConstruct: "switch@FeatureID.String case way"},
-	{Name: "type-featureid-way-as-relation", File: "feature.go", Find: "return WayID(ref).FeatureID(), nil", Replace: "return RelationID(ref).FeatureID(), nil", ExpectRule: "K3", ExpectConstruct: "switch@Type.FeatureID case way"},
+	{Name: "objectid-type-note-as-changeset", File: "object.go", Find: "case noteMask:\n\t\treturn TypeNote", Replace: "case noteMask:\n\t\treturn TypeChangeset", ExpectRule: "K3", ExpectConstruct: "decode@ObjectID.Type kind=note"},
+	{Name: "featureid-string-way-as-relation", File: "feature.go", Find: "case wayMask:\n\t\tt = TypeWay", Replace: "case wayMask:\n\t\tt = TypeRelation", ExpectRule: "K5", ExpectConstruct: "format@FeatureID.String kind=way"},
+	{Name: "type-featureid-way-as-relation", File: "feature.go", Find: "return WayID(ref).FeatureID(), nil", Replace: "return RelationID(ref).FeatureID(), nil", ExpectRule: "K3", ExpectConstruct: "lookup@Type.FeatureID kind=way"},
 	{Name: "elementid-featureid-refmask", File: "element.go", Find: "return FeatureID(id & featureMask)", Replace: "return FeatureID(id & refMask)", ExpectRule: "K3", ExpectConstruct: "ElementID.FeatureID"},
-	{Name: "counts-way-counted-as-node", File: "element.go", Find: "case wayMask:\n\t\t\tways++", Replace: "case wayMask:\n\t\t\tnodes++", ExpectRule: "K3", ExpectConstruct: "switch@ElementIDs.Counts case way"},
+	{Name: "counts-way-counted-as-node", File: "element.go", Find: "case wayMask:\n\t\t\tways++", Replace: "case wayMask:\n\t\t\tnodes++", ExpectRule: "K3", ExpectConstruct: "counts@ElementIDs.Counts kind=way"},
 	{Name: "elementid-type-drops-relation", File: "element.go", Find: "\tcase relationMask:\n\t\treturn TypeRelation\n\t}\n\n\tpanic(\"unknown type\")", Replace: "\t}\n\n\tpanic(\"unknown type\")", ExpectRule: "K3", ExpectConstruct: "ElementID.Type"},
 	// K4
-	{Name: "featureids-sort-descending", File: "feature.go", Find: "return ids[i] < ids[j]", Replace: "return ids[i] > ids[j]", ExpectRule: "K4", ExpectConstruct: "featureIDsSort"},
-	{Name: "elementids-sort-nonstrict", File: "element.go", Find: "return ids[i] < ids[j]", Replace: "return ids[i] <= ids[j]", ExpectRule: "K4", ExpectConstruct: "elementIDsSort"},
-	{Name: "elements-sort-ignores-version", File: "element.go", Find: "return es[i].ElementID() < es[j].ElementID()", Replace: "return es[i].FeatureID() < es[j].FeatureID()", ExpectRule: "K4", ExpectConstruct: "elementsSort"},
-	{Name: "elementids-swap-broken", File: "element.go", Find: "func (ids elementIDsSort) Swap(i, j int) { ids[i], ids[j] = ids[j], ids[i] }", Replace: "func (ids elementIDsSort) Swap(i, j int) { ids[i], ids[j] = ids[j], ids[j] }", ExpectRule: "K4", ExpectConstruct: "elementIDsSort.Swap"},
+	{Name: "featureids-sort-descending", File: "feature.go", Find: "return ids[i] < ids[j]", Replace: "return ids[i] > ids[j]", ExpectRule: "K4", ExpectConstruct: "comparator@FeatureIDs.Sort less"},
+	{Name: "elementids-sort-nonstrict", File: "element.go", Find: "return ids[i] < ids[j]", Replace: "return ids[i] <= ids[j]", ExpectRule: "K4", ExpectConstruct: "comparator@ElementIDs.Sort less"},
+	{Name: "elements-sort-ignores-version", File: "element.go", Find: "return es[i].ElementID() < es[j].ElementID()", Replace: "return es[i].FeatureID() < es[j].FeatureID()", ExpectRule: "K4", ExpectConstruct: "comparator@Elements.Sort less"},
+	{Name: "elementids-swap-broken", File: "element.go", Find: "func (ids elementIDsSort) Swap(i, j int) { ids[i], ids[j] = ids[j], ids[i] }", Replace: "func (ids elementIDsSort) Swap(i, j int) { ids[i], ids[j] = ids[j], ids[j] }", ExpectRule: "K4", ExpectConstruct: "comparator@ElementIDs.Sort swap"},
 	// K5
 	{Name: "parsefeature-ignores-strconv-error", File: "feature.go", Find: "n, err := strconv.ParseInt(parts[1], 10, 64)\n\tif err != nil {\n\t\treturn 0, fmt.Errorf(\"invalid feature id: %v: %v\", s, err)\n\t}", Replace: "n, _ := strconv.ParseInt(parts[1], 10, 64)", ExpectRule: "K5", ExpectConstruct: "errors@ParseFeatureID"},
 	{Name: "parseobject-accepts-3-parts", File: "object.go", Find: "l == 0 || l > 2", Replace: "l == 0 || l > 3", ExpectRule: "K5", ExpectConstruct: "arity@ParseObjectID"},
 	{Name: "parseelement-accepts-3-parts", File: "element.go", Find: "l != 1 && l != 2", Replace: "l != 1 && l != 2 && l != 3", ExpectRule: "K5", ExpectConstruct: "arity@ParseElementID"},
 	{Name: "parsefeature-accepts-3-slash-parts", File: "feature.go", Find: "if len(parts) != 2 {", Replace: "if len(parts) < 2 {", ExpectRule: "K5", ExpectConstruct: "arity@ParseFeatureID"},
-	{Name: "unknown-kind-nil-error", File: "feature.go", Find: "return 0, fmt.Errorf(\"unknown type: %v\", t)", Replace: "return 0, nil", Nth: 2, ExpectRule: "K5", ExpectConstruct: "Type.FeatureID"},
+	{Name: "unknown-kind-nil-error", File: "feature.go", Find: "return 0, fmt.Errorf(\"unknown type: %v\", t)", Replace: "return 0, nil", Nth: 2, ExpectRule: "K5", ExpectConstruct: "unknown-kind@ParseFeatureID any other text"},
 	{Name: "parseobject-version-from-ref-part", File: "object.go", Find: "v, e := strconv.ParseInt(parts2[1], 10, 64)", Replace: "v, e := strconv.ParseInt(parts2[0], 10, 64)", ExpectRule: "K5", ExpectConstruct: "roundtrip@ParseObjectID"},
 	{Name: "parseelement-version-error-nil", File: "element.go", Find: "if e != nil {\n\t\t\treturn 0, fmt.Errorf(\"invalid element id: %v: %v\", s, err)\n\t\t}", Replace: "if e != nil {\n\t\t\treturn 0, nil\n\t\t}", ExpectRule: "K5", ExpectConstruct: "errors@ParseElementID"},
 	{Name: "objectid-string-dot-separator", File: "object.go", Find: "\"%s/%d:%d\"", Replace: "\"%s/%d.%d\"", ExpectRule: "K5", ExpectConstruct: "format@ObjectID.String"},
 	{Name: "elementid-string-dash-for-version-1", File: "element.go", Find: "func (id ElementID) String() string {\n\tif id.Version() == 0 {", Replace: "func (id ElementID) String() string {\n\tif id.Version() == 1 {", ExpectRule: "K5", ExpectConstruct: "format@ElementID.String"},
 	{Name: "parseelement-hex-ref", File: "element.go", Find: "ref, err := strconv.ParseInt(parts2[0], 10, 64)", Replace: "ref, err := strconv.ParseInt(parts2[0], 16, 64)", ExpectRule: "K5", ExpectConstruct: "roundtrip@ParseElementID"},
-	{Name: "parseobject-no-dash", File: "object.go", Find: "if len(parts2) == 2 && parts2[1] != \"-\" {", Replace: "if len(parts2) == 2 {", ExpectRule: "K5", ExpectConstruct: "version-part@ParseObjectID"},
+	{Name: "parseobject-no-dash", File: "object.go", Find: "if len(parts2) == 2 && parts2[1] != \"-\" {", Replace: "if len(parts2) == 2 {", ExpectRule: "K5", ExpectConstruct: "roundtrip@ParseObjectID"},
 }
 
 // ---------------------------------------------------------------------------
@@ -142,19 +155,23 @@ const (
 var c10LayoutConsts = []string{"versionBits", "versionMask", "refMask", "featureMask", "typeMask"}
 
 type c10Model struct {
-	r      *core.R
-	pk     *packages.Package
-	info   *types.Info
-	ev     *c10Eval
-	consts map[string]uint64
-	cobj   map[string]*types.Const
-	kinds  []*c10Kind
-	packed map[string]*types.Named // ObjectID, ElementID, FeatureID
-	typeT  *types.Named            // osm.Type
-	funcs  []*FuncInfo
+	r       *core.R
+	pk      *packages.Package
+	info    *types.Info
+	ev      *c10Eval
+	consts  map[string]uint64
+	cobj    map[string]*types.Const
+	kinds   []*c10Kind
+	packed  map[string]*types.Named // ObjectID, ElementID, FeatureID
+	typeT   *types.Named            // osm.Type
+	funcs   []*FuncInfo
+	derived map[string]string // layout/kind constants that did not resolve by name: how their value was derived
 }
 
 // c10Load resolves the anchors; missing ones are reported through r.Anchor and nil is returned.
+// Exported API (id types, structs, Type constants, packed types) is required. The unexported layout and
+// kind-mask constants are only *hints*: when one does not resolve under its usual name (renamed, inlined,
+// replaced by an expression) its value is derived from the role it plays in the exported API (see role()).
 func c10Load(r *core.R) *c10Model {
 	pk := r.P.Pkg("")
 	if pk == nil {
@@ -162,39 +179,32 @@ func c10Load(r *core.R) *c10Model {
 		return nil
 	}
 	m := &c10Model{r: r, pk: pk, info: pk.TypesInfo, ev: c10NewEval(pk), consts: map[string]uint64{}, cobj: map[string]*types.Const{},
-		kinds: c10KindTable(), packed: map[string]*types.Named{}, funcs: allFuncs(pk)}
+		kinds: c10KindTable(), packed: map[string]*types.Named{}, funcs: allFuncs(pk), derived: map[string]string{}}
+	m.ev.resetScenario()
 	ok := true
 	scope := pk.Types.Scope()
-	lookupConst := func(name string) *types.Const {
-		c, _ := scope.Lookup(name).(*types.Const)
-		if c == nil {
-			r.Anchor("constant " + name)
-			ok = false
-		}
-		return c
-	}
 	names := append([]string{}, c10LayoutConsts...)
 	for _, k := range m.kinds {
 		names = append(names, k.MaskConst)
 	}
 	for _, n := range names {
-		c := lookupConst(n)
+		c, _ := scope.Lookup(n).(*types.Const)
 		if c == nil {
 			continue
 		}
 		v := constant.ToInt(c.Val())
 		u, exact := constant.Uint64Val(v)
 		if v.Kind() != constant.Int || !exact {
-			r.Anchor("constant " + n + " as an unsigned 64-bit value")
-			ok = false
 			continue
 		}
 		m.consts[n], m.cobj[n] = u, c
 	}
 	for _, k := range m.kinds {
-		k.mask = m.consts[k.MaskConst]
-		if c := lookupConst(k.TypeConst); c != nil {
+		if c, _ := scope.Lookup(k.TypeConst).(*types.Const); c != nil && c.Val().Kind() == constant.String {
 			k.typeObj = c
+		} else {
+			r.Anchor("constant " + k.TypeConst)
+			ok = false
 		}
 		if k.IDType != "" && c10Named(pk, k.IDType) == nil {
 			r.Anchor("type " + k.IDType)
@@ -220,7 +230,50 @@ func c10Load(r *core.R) *c10Model {
 	if !ok {
 		return nil
 	}
+	// kind bits: the named mask constant when it resolves, else the constant part of what the kind's
+	// exported ObjectID constructor writes
+	for _, k := range m.kinds {
+		if u, has := m.consts[k.MaskConst]; has {
+			k.mask = u
+			continue
+		}
+		u, why := m.kindBitsByRole(k)
+		if why != "" {
+			r.Unknown("model kind "+k.Name, token.NoPos, "no constant %s and the kind bits cannot be derived from the %s ObjectID constructor: %s", k.MaskConst, k.Name, why)
+			ok = false
+			continue
+		}
+		k.mask = u
+		m.derived[k.MaskConst] = fmt.Sprintf("constant bits written by the %s ObjectID constructor", k.Name)
+	}
+	if !ok {
+		return nil
+	}
 	return m
+}
+
+// kindBitsByRole evaluates the exported ObjectID constructor of the kind and returns its constant lanes.
+func (m *c10Model) kindBitsByRole(k *c10Kind) (uint64, string) {
+	v, why := m.evalCanonical("ObjectID", k)
+	if why != "" {
+		return 0, why
+	}
+	if v.K != c10VInt {
+		return 0, "result is not an integer"
+	}
+	u, ok := v.V.constPart()
+	if !ok {
+		return 0, "result has unknown lanes: " + v.V.String()
+	}
+	return u, ""
+}
+
+// maskName names the kind bits in messages.
+func (m *c10Model) maskName(k *c10Kind) string {
+	if _, has := m.consts[k.MaskConst]; has {
+		return k.MaskConst
+	}
+	return fmt.Sprintf("%#x (kind bits of %s)", k.mask, k.Name)
 }
 
 func c10Named(pk *packages.Package, name string) *types.Named {
@@ -435,27 +488,163 @@ func (m *c10Model) resultType(fi *FuncInfo) types.Type {
 }
 
 // ---------------------------------------------------------------------------
-// K1 constants
+// K1 layout
+
+// rawProbe evaluates a parameterless method of a packed type on an arbitrary 64-bit pattern raw[63..0] and
+// returns, for every result lane, which raw bit it holds (-1: constant 0). ok=false when a lane is anything else.
+func (m *c10Model) rawProbe(packed, method string) (lanes [64]int, why string) {
+	fi := m.method(packed, method)
+	if fi == nil {
+		return lanes, packed + "." + method + " not found"
+	}
+	recvT := fi.Obj.Type().(*types.Signature).Recv().Type()
+	got, w := m.single(fi, c10IntVal(m.vecOf(recvT, c10InputVec(c10SrcRaw, 64, 64, true))), nil)
+	if w != "" {
+		return lanes, w
+	}
+	if got.K != c10VInt {
+		return lanes, "result is not an integer"
+	}
+	for i := 0; i < 64; i++ {
+		l := got.V.L[i]
+		switch {
+		case l.K == c10Zero:
+			lanes[i] = -1
+		case l.K == c10Sym && l.Src == c10SrcRaw:
+			lanes[i] = int(l.Bit)
+		default:
+			return lanes, fmt.Sprintf("lane %d of %s.%s(raw) is %s", i, packed, method, c10LaneStr(l))
+		}
+	}
+	return lanes, ""
+}
+
+// role derives the value of a layout constant from the role it plays in the exported API:
+//
+//	versionBits  lane of ref[0] in what NodeID.FeatureID() builds
+//	versionMask  the lanes ElementID.Version() keeps (in place)
+//	refMask      the lanes ElementID.Ref() keeps (before its shift)
+//	featureMask  the lanes ElementID.FeatureID() keeps (in place)
+//	typeMask     the union of the seven kind-bit patterns (the lanes that tell kinds apart)
+func (m *c10Model) role(name string) (uint64, string, string) {
+	inPlace := func(packed, method string) (uint64, string) {
+		lanes, why := m.rawProbe(packed, method)
+		if why != "" {
+			return 0, why
+		}
+		var u uint64
+		for i, b := range lanes {
+			if b < 0 {
+				continue
+			}
+			if b != i && !(i >= 32 && lanes[i] == lanes[31]) { // sign extension of a 32-bit int result
+				return 0, fmt.Sprintf("%s.%s moves raw bit %d to lane %d", packed, method, b, i)
+			}
+			if b == i {
+				u |= 1 << uint(i)
+			}
+		}
+		return u, ""
+	}
+	switch name {
+	case "versionBits":
+		k := m.kindByName("node")
+		v, why := m.evalCanonical("FeatureID", k)
+		if why != "" || v.K != c10VInt {
+			return 0, "", "NodeID.FeatureID could not be evaluated: " + why
+		}
+		for i := 0; i < 64; i++ {
+			if l := v.V.L[i]; l.K == c10Sym && l.Src == c10SrcRef && l.Bit == 0 {
+				return uint64(i), "lane of ref[0] in NodeID.FeatureID()", ""
+			}
+		}
+		return 0, "", "ref[0] does not appear in NodeID.FeatureID()"
+	case "versionMask":
+		u, why := inPlace("ElementID", "Version")
+		return u, "lanes ElementID.Version() keeps", why
+	case "featureMask":
+		u, why := inPlace("ElementID", "FeatureID")
+		return u, "lanes ElementID.FeatureID() keeps", why
+	case "refMask":
+		lanes, why := m.rawProbe("ElementID", "Ref")
+		if why != "" {
+			return 0, "", why
+		}
+		var u uint64
+		shift := -1
+		for i, b := range lanes {
+			if b < 0 {
+				continue
+			}
+			if shift == -1 {
+				shift = b - i
+			}
+			if b-i != shift {
+				return 0, "", fmt.Sprintf("ElementID.Ref() does not shift uniformly (raw bit %d in lane %d)", b, i)
+			}
+			u |= 1 << uint(b)
+		}
+		return u, "lanes ElementID.Ref() keeps", ""
+	case "typeMask":
+		var u uint64
+		for _, k := range m.kinds {
+			u |= k.mask
+		}
+		return u, "union of the seven kind-bit patterns", ""
+	}
+	return 0, "", "no role known for " + name
+}
 
 func c10K1(r *core.R) {
 	m := c10Load(r)
 	if m == nil {
 		return
 	}
-	c := m.consts
-	pos := func(n string) token.Pos { return m.cobj[n].Pos() }
+	// values by name, else by role
+	c := map[string]uint64{}
+	how := map[string]string{}
+	for _, n := range c10LayoutConsts {
+		if u, has := m.consts[n]; has {
+			c[n] = u
+			continue
+		}
+		u, desc, why := m.role(n)
+		if why != "" {
+			r.Unknown(n, token.NoPos, "no constant %s in the package and its role value cannot be derived: %s", n, why)
+			return
+		}
+		c[n], how[n] = u, desc
+	}
+	for _, k := range m.kinds {
+		c[k.MaskConst] = k.mask
+		if d, isDerived := m.derived[k.MaskConst]; isDerived {
+			how[k.MaskConst] = d
+		}
+	}
+	pos := func(n string) token.Pos {
+		if o := m.cobj[n]; o != nil {
+			return o.Pos()
+		}
+		return token.NoPos
+	}
+	label := func(n string) string {
+		if d, isDerived := how[n]; isDerived {
+			return fmt.Sprintf("%s (not a named constant here; derived: %s)", n, d)
+		}
+		return n
+	}
 	vb := c["versionBits"]
 	eq := func(name string, want uint64, formula string) {
 		if c[name] == want {
-			r.OK(name, pos(name), "%s = %#x = %s", name, c[name], formula)
+			r.OK(name, pos(name), "%s = %#x = %s", label(name), c[name], formula)
 		} else {
-			r.Bad(name, pos(name), "%s = %#x but %s = %#x: the field boundary disagrees with the shifts the constructors use", name, c[name], formula, want)
+			r.Bad(name, pos(name), "%s = %#x but %s = %#x: the field boundary disagrees with the shifts the constructors use", label(name), c[name], formula, want)
 		}
 	}
 	if vb == c10VerBits {
-		r.OK("versionBits", pos("versionBits"), "versionBits = %d: versions in [0,2^%d) fit the version field", vb, c10VerBits)
+		r.OK("versionBits", pos("versionBits"), "%s = %d: versions in [0,2^%d) fit the version field", label("versionBits"), vb, c10VerBits)
 	} else {
-		r.Bad("versionBits", pos("versionBits"), "versionBits = %d, the property's version range [0,2^%d) needs exactly %d bits below the reference", vb, c10VerBits, c10VerBits)
+		r.Bad("versionBits", pos("versionBits"), "%s = %d, the property's version range [0,2^%d) needs exactly %d bits below the reference", label("versionBits"), vb, c10VerBits, c10VerBits)
 	}
 	if vb < 24 {
 		eq("versionMask", 1<<vb-1, "1<<versionBits - 1")
@@ -466,9 +655,9 @@ func c10K1(r *core.R) {
 	for _, p := range [][2]string{{"typeMask", "refMask"}, {"typeMask", "versionMask"}, {"refMask", "versionMask"}} {
 		name := "disjoint " + p[0] + "/" + p[1]
 		if c[p[0]]&c[p[1]] == 0 {
-			r.OK(name, pos(p[0]), "%s & %s = 0", p[0], p[1])
+			r.OK(name, pos(p[0]), "%s & %s = 0", label(p[0]), label(p[1]))
 		} else {
-			r.Bad(name, pos(p[0]), "%s & %s = %#x: the fields overlap, so two different (kind, ref, version) triples share an id", p[0], p[1], c[p[0]]&c[p[1]])
+			r.Bad(name, pos(p[0]), "%s & %s = %#x: the fields overlap, so two different (kind, ref, version) triples share an id", label(p[0]), label(p[1]), c[p[0]]&c[p[1]])
 		}
 	}
 	all := c["typeMask"] | c["refMask"] | c["versionMask"] | c["featureMask"]
@@ -480,7 +669,22 @@ func c10K1(r *core.R) {
 	} else {
 		r.Bad("sign-bit", pos("typeMask"), "bit 63 is set in one of the masks: ids become negative and integer order no longer follows the kind")
 	}
-	eq("featureMask", c["typeMask"]|c["refMask"], "typeMask | refMask")
+	_, fmRole := how["featureMask"]
+	_, tmRole := how["typeMask"]
+	if !fmRole && !tmRole {
+		eq("featureMask", c["typeMask"]|c["refMask"], "typeMask | refMask")
+	} else {
+		// by role only the property-relevant part is prescribed: every kind and reference lane kept, no version lane
+		need := c["typeMask"] | c["refMask"]
+		switch {
+		case c["featureMask"]&need != need:
+			r.Bad("featureMask", pos("featureMask"), "%s = %#x drops kind or reference lanes (%#x needed): the feature id of an element loses information", label("featureMask"), c["featureMask"], need)
+		case c["featureMask"]&c["versionMask"] != 0:
+			r.Bad("featureMask", pos("featureMask"), "%s = %#x keeps version lanes (%#x): the feature id still depends on the version", label("featureMask"), c["featureMask"], c["featureMask"]&c["versionMask"])
+		default:
+			r.OK("featureMask", pos("featureMask"), "%s = %#x keeps every kind and reference lane and no version lane", label("featureMask"), c["featureMask"])
+		}
+	}
 	for _, k := range m.kinds {
 		name := "kind " + k.MaskConst
 		var clash []string
@@ -491,13 +695,13 @@ func c10K1(r *core.R) {
 		}
 		switch {
 		case k.mask == 0:
-			r.Bad(name, pos(k.MaskConst), "%s is zero: ids of kind %s are indistinguishable from the zero id", k.MaskConst, k.Name)
+			r.Bad(name, pos(k.MaskConst), "%s is zero: ids of kind %s are indistinguishable from the zero id", label(k.MaskConst), k.Name)
 		case k.mask&^c["typeMask"] != 0:
-			r.Bad(name, pos(k.MaskConst), "%s = %#x has bits outside typeMask = %#x: `id & typeMask` can never equal it, Type() fails for every %s id", k.MaskConst, k.mask, c["typeMask"], k.Name)
+			r.Bad(name, pos(k.MaskConst), "%s = %#x has bits outside typeMask = %#x: `id & typeMask` can never equal it, Type() fails for every %s id", label(k.MaskConst), k.mask, c["typeMask"], k.Name)
 		case len(clash) > 0:
-			r.Bad(name, pos(k.MaskConst), "%s equals %s: two kinds share ids", k.MaskConst, strings.Join(clash, ", "))
+			r.Bad(name, pos(k.MaskConst), "%s equals %s: two kinds share ids", label(k.MaskConst), strings.Join(clash, ", "))
 		default:
-			r.OK(name, pos(k.MaskConst), "%s = %#x is non-zero, inside typeMask and distinct from the other six kind masks", k.MaskConst, k.mask)
+			r.OK(name, pos(k.MaskConst), "%s = %#x is non-zero, inside typeMask and distinct from the other six kind masks", label(k.MaskConst), k.mask)
 		}
 	}
 	n, w, rl := c["nodeMask"], c["wayMask"], c["relationMask"]
@@ -561,7 +765,7 @@ func (m *c10Model) structKinds(name string, st *types.Struct) ([]*c10Kind, bool)
 	return nil, false
 }
 
-// c10Producer is a method whose single result is a packed id.
+// c10Producer is an exported method whose single result is a packed id.
 type c10Producer struct {
 	fi     *FuncInfo
 	recv   string // local name of the receiver type
@@ -574,6 +778,9 @@ func (m *c10Model) producers() []c10Producer {
 		sig := fi.Obj.Type().(*types.Signature)
 		if sig.Recv() == nil || sig.Results().Len() != 1 || !m.isPacked(sig.Results().At(0).Type()) {
 			continue
+		}
+		if !fi.Obj.Exported() {
+			continue // unexported helpers are covered through the exported methods that call them (inlined)
 		}
 		out = append(out, c10Producer{fi: fi, recv: m.localName(sig.Recv().Type()), result: m.localName(sig.Results().At(0).Type())})
 	}
@@ -600,7 +807,7 @@ func (m *c10Model) checkProducer(p c10Producer) bool {
 		got, why := m.single(fi, m.refInput(recvT), args)
 		want := m.shape(k, hasVer)
 		if m.verdict("constructor@"+name, pos, got, why, want, fmt.Sprintf("%s id of a %s from ref[0..39]%s", p.result, k.Name, map[bool]string{true: ", ver[0..15]", false: ""}[hasVer])) {
-			r.OK("constructor@"+name, pos, "abstract result %s = %s | ref<<%d%s: every input bit has its own lane, none unknown", got.V, k.MaskConst, c10VerBits, map[bool]string{true: " | ver", false: ""}[hasVer])
+			r.OK("constructor@"+name, pos, "abstract result %s = %s | ref<<%d%s: every input bit has its own lane, none unknown", got.V, m.maskName(k), c10VerBits, map[bool]string{true: " | ver", false: ""}[hasVer])
 		} else {
 			allOK = false
 		}
